@@ -22,3 +22,9 @@ def rules(ctx):
     ctx.floor("C05.bosonic-footprint", 24)
     ctx.floor("C05.mode-routing", 70)
     ctx.floor("C05.prep-reset", 12)
+    # allocating a mode must not touch the existing modes; a decomposed preparation resets every target; photon counting pairs
+    # every mode with its own outcome (shared with C08 / C02 / C06)
+    from . import c08 as _c08, c02 as _c02
+    _c08.register_shape(ctx, "C05.register-shape")
+    _c02.prep_every_mode(ctx, "C05.prep-every-mode")
+    c06.fock_outcome(ctx, "C05.fock-outcome")
